@@ -1,12 +1,12 @@
 SPECIFICATION Spec
-CONSTANTS ZMax = 2
+CONSTANTS ZMax = 3
           NoYGuard = FALSE
           XBandLeftOpen = FALSE
           NMin = 1
           N = 4
-          GapMax = 2
+          GapMax = 3
           HMax = 2
-          WMax = 2
+          WMax = 3
           HBMin = 1
           HBMax = 2
 INVARIANT ResultOk
